@@ -76,6 +76,9 @@ OP = st.one_of(
     st.tuples(st.just("intersection_update"), ARGS),
     st.tuples(st.just("symmetric_difference_update"), ITEMS),
     st.tuples(st.sampled_from(["ior", "iand", "isub", "ixor"]), ITEMS, st.sampled_from(["set", "set", "frozenset", "list"])),
+    # the set ITSELF as the argument
+    st.tuples(st.sampled_from(["self:ior", "self:iand", "self:isub", "self:ixor", "self:update", "self:difference_update",
+                               "self:intersection_update", "self:symmetric_difference_update"])),
     st.tuples(st.just("copy"), st.sampled_from(["copy", "deepcopy", "p0", "p1", "p2", "p3", "p4", "p5"])),
 ).map(list)
 
@@ -279,12 +282,20 @@ def run(case, ctx):
         if obs is not None:
             del obs[:]
         m2 = set(model)
+        margs, iargs = args, args
+        if name.startswith("self:"):
+            name = name[5:]
+            interesting = True
+            snap = set(model)                 # (for a builtin set, s <op>= s behaves like s <op>= set(s))
+            margs = [snap] if name in ("ior", "iand", "isub", "ixor", "symmetric_difference_update") else [[snap]]
+            iargs = [ts] if name in ("ior", "iand", "isub", "ixor", "symmetric_difference_update") else [[ts]]
+        args = margs
         try:
-            r2, e2 = model_apply(m2, name, args, val), None
+            r2, e2 = model_apply(m2, name, margs, val), None
         except Exception as e:
             r2, e2, m2 = None, e, set(model)
         try:
-            r1, e1 = impl_apply(ts, name, args), None
+            r1, e1 = impl_apply(ts, name, iargs), None
         except Exception as e:
             r1, e1 = None, e
         if (e2 is None and type(e1) is TypeError and name in ("difference_update", "intersection_update")
